@@ -15,7 +15,7 @@ RULE = ('ENUMERATED: 17 estimators x applicable methods of {fit, transform, pair
         'the preprocessor, pair labels {0,2,-2,0.5,"a"}, label-length mismatch, n_components in {0,-1,d+1}) - every '
         'cell once; GENERATED: Hypothesis draws the cell plus the size of the otherwise well-formed input and the '
         'position of the bad entry; EQUIVALENCE: integral training/query data as list / int32 / int64 / Fortran / '
-        'non-contiguous vs float64 C array. Every enumerated cell is a distinct non-trivial case; generated cases '
+        'non-contiguous vs float64 C array; FUZZ (thorough tier): 16 atheris/libFuzzer campaigns (empty corpus and a 3-input corpus) decode bytes into nested lists of float/int/None/str/nan/inf (structured and free modes) for 6 fitted estimators, with an independent well-formedness predicate as oracle. Every enumerated cell is a distinct non-trivial case; generated cases '
         'are distinct by (cell, size, position).')
 ASSUMPTIONS = ['with a preprocessor, 1-D (points) / 2-D (tuples) inputs are indicators by definition and are not malformed',
                'non-numeric means strings that do not parse as numbers; one tuple is a valid sample count',
@@ -325,7 +325,55 @@ def gen_cell(draw, name):
   return c
 
 
-CHECKS = {'check_cell': check_cell, 'check_equiv': check_equiv}
+def check_fuzz_obj(case, stats):
+  """replay of a fuzz finding (the decoded object, not the bytes)"""
+  from ..fuzz.c06_atheris import check_obj
+  cls = check_obj(case['target'], case['obj'])
+  stats.case(case, cls != 'bad', ['fuzz', 'fuzz:' + cls])
+
+
+def run_fuzz(shard, seed, stats, runs):
+  """one libFuzzer campaign in a subprocess (libFuzzer never returns); results come back through a JSON file"""
+  import json, os, subprocess, sys, tempfile
+  try:
+    import atheris  # noqa: F401
+  except Exception:
+    stats.notes['atheris not importable: fuzz tier skipped'] += 1
+    return []
+  tmp = tempfile.mkdtemp(prefix='c06fuzz_')
+  out = os.path.join(tmp, 'out.json')
+  corpus = os.path.join(tmp, 'corpus')
+  os.makedirs(corpus)
+  if shard['i'] % 2:                    # odd workers start from three small valid inputs, even ones from nothing
+    for k, blob in enumerate([b'\x00\x00\x09\x02' + b'\x05' * 40, b'\x02\x00\x09\x01' + b'\x07' * 60, b'\x04\x00\x08\x03' + b'\x03' * 90]):
+      open(os.path.join(corpus, 'seed%d' % k), 'wb').write(blob)
+  try:
+    r = subprocess.run([sys.executable, '-m', 'vl.fuzz.c06_atheris', out, str(runs), str(seed % 100000 + 1), corpus],
+                       cwd=os.path.dirname(os.path.dirname(os.path.dirname(os.path.abspath(__file__)))),
+                       stdout=subprocess.DEVNULL, stderr=subprocess.DEVNULL, timeout=3600)
+    res = json.load(open(out)) if os.path.exists(out) else None
+  finally:
+    import shutil
+    shutil.rmtree(tmp, ignore_errors=True)
+  if res is None:
+    raise RuntimeError('fuzz worker produced no result file (exit %s)' % r.returncode)
+  stats.evaluations += res['execs']
+  stats.notes['fuzz executions'] += res['execs']
+  for k, v in res['classes'].items():
+    stats.classes['fuzz:' + k] += v
+  for smp in res['samples']:
+    stats.case(dict(fuzz=smp), True, [], sample_every=1)
+    stats.evaluations -= 1
+  if res.get('violation'):
+    v = res['violation']
+    return [dict(sig=v['sig'], msg=v['msg'], case=v['case'], check='check_fuzz_obj')]
+  if r.returncode not in (0,):
+    raise RuntimeError('fuzz worker exit code %s' % r.returncode)
+  return []
+
+
+CHECKS = {'check_cell': check_cell, 'check_equiv': check_equiv, 'check_fuzz_obj': check_fuzz_obj}
+FUZZ_RUNS = 60000
 _B = {'quick': (150, 40), 'thorough': (2000, 300)}
 
 
@@ -335,11 +383,15 @@ def shards(tier):
     out.append(dict(name=n + '-enum', est=n, part='enum'))
     out.append(dict(name=n + '-gen', est=n, part='gen'))
     out.append(dict(name=n + '-equiv', est=n, part='equiv'))
+  if tier == 'thorough':
+    out += [dict(name='fuzz-%02d' % i, part='fuzz', i=i, est=None) for i in range(16)]
   return out
 
 
 def run_shard(shard, tier, seed, stats, known_sigs):
   ngen, neq = _B[tier]
+  if shard['part'] == 'fuzz':
+    return run_fuzz(shard, seed, stats, FUZZ_RUNS)
   name = shard['est']
   if shard['part'] == 'enum':
     return run_explicit(check_cell, cells(name), stats, known_sigs, name='check_cell')
